@@ -157,7 +157,7 @@ def sparse_rules(check, P):
     return n
 
 
-def pairing_and_filter(check, P, cls_name):
+def pairing_and_filter(check, P, cls_name, n_samples=4):
     W = World(P, cls_name, root_label="hm", ctor_args=[DATA])
     I = W.I
     short = "raster" if cls_name.startswith("Raster") else "sparse"
@@ -202,7 +202,7 @@ def pairing_and_filter(check, P, cls_name):
     del I.intrinsics[f"{cls_name}.get_depth_at"]
     # ---- R4 filter
     I.loop_unroll = 1
-    pts = [Tup((Num(Poly.sym(f"x{i}")), Num(Poly.sym(f"y{i}")), Num(Poly.sym(f"z{i}")))) for i in range(4)]
+    pts = [Tup((Num(Poly.sym(f"x{i}")), Num(Poly.sym(f"y{i}")), Num(Poly.sym(f"z{i}")))) for i in range(n_samples)]
     tol = Num(Poly.sym("tol"))
     orig = I.ext_result
 
@@ -216,7 +216,7 @@ def pairing_and_filter(check, P, cls_name):
     def entry(I_, _):
         lst = I_.alloc(AList(list(pts)))
         return W.call_method(I_, "hm", "_filter_points", (lst, tol))
-    for path in I.explore(lambda I: None, entry, max_dev=None, max_paths=5000):
+    for path in I.explore(lambda I: None, entry, max_dev=None, max_paths=100000):
         n += 1
         d = [decisions_text(path, 20)]
         if path.outcome != "return":
@@ -307,7 +307,7 @@ def run(check, repo, tier):
     P = Program(repo)
     n = raster_rules(check, P) + sparse_rules(check, P)
     for cls in ("RasterHeightMap", "SparseHeightMap"):
-        n += pairing_and_filter(check, P, cls)
+        n += pairing_and_filter(check, P, cls, 6 if tier == "thorough" else 4)
     check.analysed = {"program": P.stats(), "abstract_paths": n, "classes": ["RasterHeightMap", "SparseHeightMap"]}
     check.sample({"class": "RasterHeightMap", "construction": "RectBivariateSpline(arange(shape[0]), arange(shape[1]), map)", "call": "interpolator(y, x)", "range": "x < shape[1], y < shape[0]"})
     check.coverage["exhaustive"] = True
